@@ -200,6 +200,62 @@ Proof.
 Qed.
 Print Assumptions C16_on_swapped_asfound_refuted.
 
+(* ---- tables registered again while rows are being processed ---- *)
+(* RegisterTable / RegisterTableSource under a name the store already holds replaces the source (the
+   documented way to rebuild a table wholesale). Histories of Emit / EmitSync / Upsert / Delete /
+   Register / writes through the handle of a replaced source: *)
+
+(* the code-level model returns exactly the outputs of the abstract table, also from the SQL text on *)
+Theorem C16_refinement_reregistration : forall (c : cfg) (regs : list (bytes * list bytes * list row)) (hs : list hop),
+  model_hrun c regs hs = spec_hrun c regs hs.
+Proof. exact hrefinement. Qed.
+Print Assumptions C16_refinement_reregistration.
+
+Theorem C16_refinement_sql_reregistration : forall (q : qtext) (regs : list reg_call) (hs : list hcall),
+  model_hrun_sql q regs hs = spec_hrun_sql q regs hs.
+Proof. exact hrefinement_sql. Qed.
+Print Assumptions C16_refinement_sql_reregistration.
+
+(* conservative: a history without registrations is a history of the old kind *)
+Theorem C16_reregistration_conservative : forall c regs ops, model_hrun c regs (map HOp ops) = model_run c regs ops.
+Proof. exact model_hrun_ops. Qed.
+Print Assumptions C16_reregistration_conservative.
+
+(* a registration replaces: right after it the table of that name holds exactly the new rows under the
+   new key fields (last row with an equal key wins, any other key sees nothing), whatever the name held
+   before; every other table is untouched *)
+Theorem C16_register_replaces : forall (ts : tables bytes) n keys rows name k,
+  view (register bytes bytes_eqb encodeKey ts n keys rows) name k =
+  if bytes_eqb name n then Some (keys, reg_view keys name k rows) else view ts name k.
+Proof. exact view_register. Qed.
+Print Assumptions C16_register_replaces.
+
+(* read-your-writes over every such history: what key k sees in table [name] at the end is decided by
+   the LAST registration of the name and the Upserts / Deletes after it; registrations of other names,
+   Emits and writes through detached handles change nothing *)
+Theorem C16_read_your_writes_reregistration : forall c hs (ts : tables bytes) name k,
+  view (hfinal bytes bytes_eqb encodeKey c ts hs) name k = hview name k (view ts name k) hs.
+Proof. exact h_read_your_writes. Qed.
+Print Assumptions C16_read_your_writes_reregistration.
+
+(* nothing of the past survives a registration: whatever tables were registered, rows processed and
+   updates made before (hs0, ts), after RegisterTable returned a row / an UpsertTable finds under the name
+   what it finds in a store (ts') in which only this registration and the later operations happened.
+   (A lookup that keeps hitting the source resolved for an earlier row contradicts this.) *)
+Theorem C16_register_forgets : forall c hs0 hs (ts ts' : tables bytes) n keys rows k,
+  view (hfinal bytes bytes_eqb encodeKey c ts (hs0 ++ HReg n keys rows :: hs)) n k =
+  view (hfinal bytes bytes_eqb encodeKey c ts' (HReg n keys rows :: hs)) n k.
+Proof. exact register_forgets. Qed.
+Print Assumptions C16_register_forgets.
+
+(* results already produced do not depend on what happens later, registrations included *)
+Theorem C16_earlier_results_unaffected_reregistration : forall c hs1 hs2 (ts : tables bytes),
+  hrun bytes bytes_eqb encodeKey c ts (hs1 ++ hs2) =
+  hrun bytes bytes_eqb encodeKey c ts hs1 ++
+  hrun bytes bytes_eqb encodeKey c (hfinal bytes bytes_eqb encodeKey c ts hs1) hs2.
+Proof. exact hrun_app. Qed.
+Print Assumptions C16_earlier_results_unaffected_reregistration.
+
 (* ---- concurrent table updates ---- *)
 (* every Upsert / Delete / Lookup is one atomic step, so a concurrent run of two goroutines is a merge
    of their operation sequences; for EVERY merge: what key k sees afterwards is what it sees after the
@@ -239,6 +295,21 @@ Proof. reflexivity. Qed.
 Example C16_registered_example :
   keys_of (register_all bytes bytes_eqb encodeKey [([116]%N, [[97]%N], [])]) [116]%N = Some [[97]%N].
 Proof. reflexivity. Qed.
+
+(* a history with two re-registrations (other rows, then other key fields), an Upsert after the first and a
+   Delete through the replaced handle *)
+Example C16_reregistration_example :
+  model_hrun rr_cfg [(sw_t, [sw_a], [[(sw_a, KInt 1); (sw_v, KInt 7)]])] rr_hs =
+  [OutE (ERow [(sw_k, WV (KInt 1)); (sw_m, WR [(sw_a, KInt 1); (sw_v, KInt 7)])]);
+   OutG true;
+   OutE (ERow [(sw_k, WV (KInt 1)); (sw_m, WR [(sw_a, KInt 1); (sw_v, KInt 8)])]);
+   OutE (ERow [(sw_k, WV (KInt 2)); (sw_m, WR [(sw_a, KInt 2); (sw_v, KInt 9)])]);
+   OutU true; OutD;
+   OutE (ERow [(sw_k, WV (KInt 1)); (sw_m, WR [(sw_a, KInt 1); (sw_v, KInt 10)])]);
+   OutG true;
+   OutE (ERow [(sw_k, WV (KInt 9)); (sw_m, WR [(sw_a, KInt 2); (sw_v, KInt 9)])]);
+   OutE EDrop].
+Proof. exact rereg_example. Qed.
 
 (* merges exist: the concatenation is one *)
 Example C16_merge_example : forall a b, merge a b (a ++ b).
